@@ -412,8 +412,22 @@ def r19_2b(ctx, fx, seen):
                 continue
             dom = fs.dominating(c.node)
             missing = [fact_str(x) for x in missing_facts(ent.get("need", []), dom, fn)]
+            if missing:
+                # the ordinal of a site shifts when a sibling loop is rewritten (e.g. into `extend(iter.filter_map(..))`): as long as
+                # the function has no more in-loop growth sites than the table lists for it, another listed site of this function
+                # whose requirement holds here may be the one meant
+                mine = [(k2, e2) for k2, e2 in GROWTH.items() if k2.startswith(fn_short(k) + "|grow:") and k2 != key]
+                if len(gs) <= len(mine) + 1:
+                    for k2, e2 in mine:
+                        if not missing_facts(e2.get("need", []), dom, fn):
+                            missing = []
+                            ent = e2
+                            break
             ctx.ob("R19.2", key, not missing, site=fn.site(c.node), cfg=fx.cfg, detail="%s%s" % (ent.get("why", ""), (" ; MISSING: %s" % missing) if missing else ""))
-    ctx.anchor("R19.2", "in-loop growth sites inventoried", n, 6, cfg=fx.cfg)
+    # a loop rewritten as an iterator chain is not a loop of this body any more: count `extend(..)` calls fed by an adaptor chain too
+    n_ext = sum(1 for k, fn in seen.items() for c in fn.calls(r"Extend(<.*>)?>?::extend$|Vec(<.*>)?::extend$") if not panics.in_log_macro(c.ex)
+                and any(re.search(r"Iterator>?::(filter_map|map|filter|flat_map)$", x) for x in guards.rootstrs(fn, c.args[1] if len(c.args) > 1 else c.args[0])))
+    ctx.anchor("R19.2", "in-loop growth sites inventoried", n + n_ext, 6, cfg=fx.cfg)
 
 
 def dominating_with_cut(fn, fs, site, cut):
